@@ -2,6 +2,7 @@
 C03 — dgrep selects exactly the lines grep semantics prescribe.
 -/
 import DtailModel.Lemmas.Grep
+import DtailModel.Lemmas.GenGrep
 namespace Dtail.C03
 open Dtail
 variable {α : Type}
@@ -11,6 +12,38 @@ variable {α : Type}
 theorem C03_ctx (B A M : Nat) (ls : List (Bool × α)) :
     grun B A M (ginit M) ls = grepSpec B A M (blocks ls).1 (blocks ls).2 :=
   grun_eq_spec B A M ls
+
+/-- **Tie G: the grep-context filter as translated from the working tree delivers grep semantics.**  `filterWithLContext`,
+    `filterLineWithLContext`, `lContextNotMatched`, `lContextProcessBefore`, `lContextProcessMaxCount` of
+    internal/io/fs/readfilelcontext.go, translated on this run (the raw lines are a list, `ls.beforeBuf` is a bounded queue,
+    what is sent on `lines` is kept, the context is never cancelled): for every list of raw lines, every expression verdict
+    and every `before`, `after`, `max` (no bound on any, fuel above `before` for the drain loop), the function returns
+    normally — no index out of range, no queue operation that would block for ever — and the contents of the lines it has
+    sent are the block specification of grep semantics on the lines with the expression's verdicts. -/
+theorem C03_generated_filter_is_grep (ext : Go.Ext) (ltx : Go.GoLContext) (B A M : Nat)
+    (hB : ltx.BeforeContext = (B : Int)) (hA : ltx.AfterContext = (A : Int)) (hM : ltx.MaxCount = (M : Int))
+    (hfuel : B < ext.fuel) (f : Gen.Grep.readFile) (raws : List Bytes) (re : Go.GoRegex) :
+    ∃ f', Gen.Grep.readFile.filterWithLContext ext f () ltx raws () re = Outcome.ok f' ∧
+      GenGrep.sent f' = GenGrep.sent f ++
+        grepSpec B A M (blocks (GenGrep.judged ext re raws)).1 (blocks (GenGrep.judged ext re raws)).2 := by
+  obtain ⟨f', h1, h2⟩ := GenGrep.filter_refines ext ltx B A M hB hA hM hfuel f raws re
+  exact ⟨f', h1, by rw [h2, grun_eq_spec]⟩
+
+/-- one raw line through the translated `filterLineWithLContext` is one step of the model's automaton: the same lines sent,
+    reading aborted exactly when the model's step ends the run, related states otherwise -/
+theorem C03_generated_step_is_model_step (ext : Go.Ext) (ltx : Go.GoLContext) (B A M : Nat) (ls : Gen.Grep.ltxState)
+    (s : GState Bytes) (f : Gen.Grep.readFile) (raws : List Bytes) (re : Go.GoRegex) (x : Bytes)
+    (hr : GenGrep.Rel ltx B A M ls s) (hfuel : B < ext.fuel) :
+    GenGrep.StepGood ltx B A M f (gstep B A M s (ext.reMatch re x) x)
+      (Gen.Grep.readFile.filterLineWithLContext ext f () ltx ls raws () re x) :=
+  GenGrep.step_refines ext ltx B A M ls s f raws re x hr hfuel
+
+/-- non-vacuity: before 1, after 1, max 1 on five lines of which the third and fifth are selected -/
+example :
+    let ext : Go.Ext := { parseFloat := fun _ => (0, none), reMatch := fun _ l => l.head? = some 120, fuel := 4 }
+    (match Gen.Grep.readFile.filterWithLContext ext {} () ⟨1, 1, 1⟩ [b!"a", b!"b", b!"x1", b!"c", b!"x2"] () {} with
+      | .ok f => GenGrep.sent f
+      | _ => []) = [b!"b", b!"x1", b!"c"] := by decide
 
 /-- The block view loses nothing: every line sequence is the concatenation of its blocks. -/
 theorem C03_blocks_cover (ls : List (Bool × α)) : unblocks (blocks ls).1 (blocks ls).2 = ls :=
